@@ -185,11 +185,16 @@ class ResGen:
         r = rng.random()
         const_ok = self.tgt["consts"] and (g <= 2) and self.seg in (1, 10)
         if r < 0.035:
+            # a constant next to a reservation: refused - unless every placeholder stands in the body of a `0 dup`, which is never
+            # looked at and stands for nothing (Spec/AddrRes.lean hasQ / hasC): then the statement is a constant statement
+            # (only where constant statements are generated at all: `const_ok`)
             args = gen_res_args(rng, self.stats)
-            while has_zero_dup(args):            # a constant next to `0 dup (?)` alone is not a mixture (the body is never looked at)
+            while has_zero_dup(args) and not const_ok:
                 args = gen_res_args(rng, self.stats)
             args.insert(rng.randrange(0, len(args) + 1), int_leaf(rng, bits))
             kind = "mixed"
+            if has_zero_dup(args):
+                self.stats["mixed_with_zero_dup"] += 1
         elif r < 0.2 and const_ok:
             args = gen_const_args(rng, bits, self.stats)
             kind = "const"
